@@ -152,7 +152,7 @@ func runC05(c *harness.Ctx) {
 		frames = append(frames, mk(obfs4ref.MaxPacketPayload, 0))
 	}
 	j := t.Draw("at", k) // damaged frame index (0-based) among the first k
-	ops := []string{"flip-length", "flip-tag", "flip-body", "delete", "duplicate", "swap", "replay-earlier", "insert", "truncate-eof", "truncate-silence", "none", "swap-bodies", "dup-body", "reseal-under-zero-key-while-closing"}
+	ops := []string{"flip-length", "flip-tag", "flip-body", "delete", "duplicate", "swap", "replay-earlier", "insert", "truncate-eof", "truncate-silence", "none", "swap-bodies", "dup-body", "reseal-under-zero-key-while-closing", "body-from-256-frames-earlier"}
 	op := ops[t.Draw("op", len(ops))]
 	if op == "replay-earlier" && j == 0 {
 		op = "duplicate"
@@ -164,6 +164,18 @@ func runC05(c *harness.Ctx) {
 		// move only the sealed boxes and leave each 2-byte length prefix in its
 		// slot: needs two neighbouring frames of equal length (the tail has them)
 		j = k
+	}
+	if op == "body-from-256-frames-earlier" {
+		// a long stream of full frames; one slot carries the sealed body that was
+		// sent 256 frames earlier (its own 2-byte length stays): only a nonce that
+		// repeats with the low byte of the frame counter lets that through
+		for len(frames) < k+256+4 {
+			frames = append(frames, mk(obfs4ref.MaxPacketPayload, 0))
+		}
+		j = k + 256 + t.Draw("far", 3)
+		link.AB.Policy, link.BA.Policy = simnet.ChunkAll, simnet.ChunkAll
+		link.AB.MaxRead, link.BA.MaxRead = 0, 0
+		c.S.MaxSteps *= 4
 	}
 	if seedTamper != "" {
 		// the seed frame was damaged and Dial did not object: nothing at all may
@@ -246,6 +258,15 @@ func runC05(c *harness.Ctx) {
 		}
 		for i := 0; i < 3; i++ {
 			stream = append(stream, mk(obfs4ref.MaxPacketPayload, 0).wire...)
+		}
+	case "body-from-256-frames-earlier":
+		for i := 0; i < j; i++ {
+			emit(i)
+		}
+		stream = append(stream, frames[j].wire[:2]...)
+		stream = append(stream, frames[j-256].wire[2:]...)
+		for i := j + 1; i < len(frames); i++ {
+			emit(i)
 		}
 	case "replay-earlier":
 		e := t.Draw("earlier", j)
